@@ -244,13 +244,15 @@ TB_SER = "Impl/Serializer.v: hand model of detail::url_serializer / detail::url_
 
 TB_TRACE = "settrace: the call sequence of the hash / search / port / username / password / host / hostname setters is observed on the real url_parser::url_parse through a logging subclass of detail::url_setter (virtual members only; set_flag is seen as an added flag bit, potentially_strip_trailing_spaces is not seen); the setters' own glue code is repeated in harness/driver.cpp and its effect compared with the real setter on a second object"
 
+TB_PTRACE = "parsetrace: the call sequence of a parse (no base) is observed on the real url_parser::url_parse through a logging subclass of detail::url_serializer (virtual members only; set_flag not seen) and compared with emit_ops, the sequence C01_emit_repr is about (inputs: canonical hrefs with a host, a list path and a scheme other than file); the glue of url::do_parse (new_url, trimming, VALID flag) is repeated in harness/driver.cpp and its effect compared with the real parse"
+
 PROPS = {
     "C13": P("proof", streams=["setapply"], proof_search=c13_search, premain=True,
         trusted_base=[
             "translator T1: harness/dump_tables.cpp compiled by g++ in -std=c++11/14/17/20 against /repo's current headers and sources (-fno-access-control) + harness/gen_tables.py",
             "Spec.CodePoints: hand transcription of the Standard's set definitions (DESIGN appendix A.1)"],
         assumptions=["the four language modes are exercised with g++ 12.2 only"]),
-    "C01": P("proof", model_variants=["spec", "impl"], streams=["parse", "parse_exhaustive"], trusted_base=TB_CORR + [TB_ICU_LAWS], coq_files=["Properties_C01_total.v", "Properties_C01.v", "Properties_C01_serializer.v"]),
+    "C01": P("proof", model_variants=["spec", "impl"], streams=["parse", "parse_exhaustive", "parsetrace"], trusted_base=TB_CORR + [TB_ICU_LAWS, TB_SER, TB_PTRACE], coq_files=["Properties_C01_total.v", "Properties_C01.v", "Properties_C01_serializer.v"]),
     "C02": P("proof", model_variants=["spec", "impl"], streams=["reparse"], trusted_base=TB_CORR + [TB_ICU_LAWS2]),
     "C03": P("proof", model_variants=["spec", "impl"], streams=["setters", "serops", "settrace"], trusted_base=TB_CORR + [TB_ICU_LAWS, TB_SER, TB_TRACE], coq_files=["Properties_C03.v", "Properties_C03_serializer.v"]),
     "C05": P("proof", model_variants=["spec", "impl"], streams=["histories", "serops"], trusted_base=TB_CORR + [TB_ICU_LAWS, TB_ICU_LAWS2], coq_files=["Properties_C05.v", "Properties_C05_proto2.v", "Properties_C05_repr.v", "Properties_C06.v"]),
